@@ -145,6 +145,10 @@ def make_cases(ctx, rng):
                 body = "function tokFn(a) {\n  const value = %s;\n  if (a === %s) { return value; }\n  return check(a, %s);\n}\n" % (tok, tok, tok)
             cases.append({"id": "tok:%s:%d" % (lang, ti), "name": "bad/tok%d%s" % (ti, ext[lang]), "data": body.encode("utf-8", "surrogatepass"), "mclass": "token", "lang": lang,
                           "token": tok[:40]})
+    # degenerate contents under every kind of name (known extension, unknown extension, none): the classes the property lists, at their smallest
+    for ci, data in enumerate([b"", b"\xef\xbb\xbf", b"\xef\xbb\xbf\n", b"\n", b" ", b"\t\r\n", b"\x00", b"#!", b"#!\n", b"#!/usr/bin/env python3", b"\xff\xfe", b"\r"]):
+        for name in ("bad/tiny%d" % ci, "bad/tiny%d.txt" % ci, "bad/tiny%d.py" % ci, "bad/tiny%d.ts" % ci, "bad/tiny%d.rs" % ci):
+            cases.append({"id": "tiny:%d:%s" % (ci, name.rsplit("/", 1)[1]), "name": name, "data": data, "mclass": "degenerate", "lang": "py"})
     py = sd[0][1]
     for name in ("bad/prog.java", "bad/prog.go", "bad/notes.txt", "bad/noext", "bad/script", "bad/data.json", "bad/x.PY", "bad/weird name (1).py", "bad/.hidden.py"):
         data = (b"#!/usr/bin/env python3\n" + py) if name.endswith("script") else py
